@@ -46,7 +46,9 @@ Proof.
   pose proof (alloc_history_bounds sizes 0 Hnn) as [Hle HB].
   pose proof (alloc_history_disjoint sizes 0 Hnn) as HD.
   set (fin := snd (alloc_history 0 sizes)) in *.
-  assert (Hfr : fin <= ensure_bp_frame clob fin) by (unfold ensure_bp_frame; destruct (clob && (fin =? 0)); lia).
+  assert (Hr8 : forall x, x <= round8 x) by (intro x; unfold round8; pose proof (Z.div_mod (x + 7) 8 ltac:(lia)); pose proof (Z.mod_pos_bound (x + 7) 8 ltac:(lia)); lia).
+  assert (Hfr : fin <= round8 (ensure_bp_frame clob fin)).
+  { pose proof (Hr8 (ensure_bp_frame clob fin)). unfold ensure_bp_frame in *. destruct (clob && (fin =? 0)); lia. }
   rewrite HD, andb_true_r. apply andb_true_iff. split.
   - apply forallb_forall. intros x Hx. rewrite Forall_forall in HB. destruct (HB x Hx) as (H1 & H2 & H3).
     unfold region_in. lia.
